@@ -163,6 +163,8 @@ var c11 struct {
 	quiet []string
 }
 
+var c11CodeSeq int
+
 const c11Ghost = types.Uid(0x0123456789abcdef)
 
 func c11Init(t *testing.T) {
@@ -301,6 +303,9 @@ func (sc *c11Scn) tok(u types.Uid) string {
 }
 
 func (sc *c11Scn) tokOfUserId(s string) string {
+	if s == "" {
+		return "0"
+	}
 	u := types.ParseUserId(s)
 	if u.IsZero() {
 		return "?"
@@ -353,7 +358,8 @@ func (sc *c11Scn) secret(spec string) []byte {
 		return tk
 	case "code":
 		// code:<who>:<ok|bad>
-		cred := "email:" + p[1] + "@example.com"
+		c11CodeSeq++
+		cred := "email:" + p[1] + "x" + strconv.Itoa(c11CodeSeq) + "@example.com"
 		code, _, err := store.Store.GetLogicalAuthHandler("code").GenSecret(&auth.Rec{Uid: sc.who(p[1]), AuthLevel: auth.LevelAuth,
 			Features: auth.FeatureNoLogin, Credential: cred})
 		if err != nil {
@@ -515,6 +521,8 @@ func (sc *c11Scn) step(kind string, kv map[string]string) {
 	oracle := ""
 	if kind == "hi" {
 		oracle = "pv=" + strconv.Itoa(parseVersion(string(c11Hex(kv["ver"]))))
+	} else if kv["also"] == "hi" {
+		oracle = "pv=" + strconv.Itoa(parseVersion("0.22"))
 	}
 	if kind == "rawjson" {
 		raw = c11Hex(kv["json"])
